@@ -179,8 +179,8 @@ def run_evolve(case, ctx):
             tt = steps * pr.choice([2 * math.pi, math.pi, -2 * math.pi, 4 * math.pi, 6 * math.pi])
         time = tt
         eff = {t: c * tt for t, c in terms.items()}
-    ctrl_kind = pr.choice(["none", "none", "int", "list1", "list2", "list2_with0"])
-    off = 1 if ctrl_kind == "list2_with0" else 0
+    ctrl_kind = pr.choice(["none", "none", "int", "list1", "list2", "list2_with0", "int0", "int0", "list_0"])
+    off = 1 if ctrl_kind in ("list2_with0", "int0", "list_0") else 0
     if off:
         terms_s = {tuple((i + 1, p) for i, p in t): c for t, c in terms.items()}
         op_s = gen.to_qubit_operator(terms_s)
@@ -188,7 +188,8 @@ def run_evolve(case, ctx):
     else:
         op_s, time_s = op, time
     ctrl, clist = {"none": (None, []), "int": (n, [n]), "list1": ([n], [n]), "list2": ([n, n + 1], [n, n + 1]),
-                   "list2_with0": ([0, n + 2], [0, n + 2])}[ctrl_kind]
+                   "list2_with0": ([0, n + 2], [0, n + 2]), "int0": (0, [0]), "list_0": ([0], [0])}[ctrl_kind]
+    ctx.tab("control_kind", ctrl_kind + ("|constant_term" if () in terms else ""))
     n_tot = max([n + off] + [c + 1 for c in clist])
     sys_q = list(range(off, off + n))
     wit = lambda: {"n": n, "terms": [[list(map(list, t)), c] for t, c in terms.items()], "time": time if not tdict else
